@@ -62,3 +62,17 @@ Qed.
 
 Lemma scan_heads_spec r from h : heads_ok r -> (In h (scan_heads r from) <-> is_tip r h /\ from <= num_of h).
 Proof. intros HO. unfold scan_heads. rewrite <- in_rev, filter_In, N.leb_le, (HO h). tauto. Qed.
+
+(* GetConflicts(n): exactly the stored blocks of height n *)
+Lemma get_conflicts_spec r n id : In id (get_conflicts r n) <-> stored r id /\ num_of id = n.
+Proof.
+  unfold get_conflicts, stored, get_summary.
+  induction (r_sums r) as [|[k v] l IH]; cbn [filter map fold_right afind fst].
+  - split; [intros [] | intros [[s Hs] _]; discriminate].
+  - destruct (N.eqb_spec (num_of k) n) as [E|NE]; cbn [map fold_right].
+    + rewrite insert_asc_in, IH. cbn [fst]. destruct (N.eqb_spec k id) as [->|Nk].
+      * split; [intros _; split; [eauto | exact E] | intros _; left; reflexivity].
+      * split; [intros [->|H]; [congruence | exact H] | intros H; right; exact H].
+    + rewrite IH. destruct (N.eqb_spec k id) as [->|Nk]; [|tauto].
+      split; [intros [_ H]; congruence | intros [_ H]; congruence].
+Qed.
